@@ -305,7 +305,7 @@ def extract_fn(item, opts, blocks, rewrites_log, as_stub=False):
                 # (depth counted from anchor start)
                 pp = next(i for i in range(len(ci)) if toks[ci[i]][2] >= s0)
                 depth = 0; pos = None
-                while pp < bodye:
+                while pp <= bodye:
                     y = tk(pp)
                     if y[0] == 'punct':
                         if y[1] in OPEN: depth += 1
@@ -315,7 +315,7 @@ def extract_fn(item, opts, blocks, rewrites_log, as_stub=False):
                         elif y[1] == ';' and depth == 0:
                             pos = y[3]; break
                     pp += 1
-                if pos is None and pp < bodye and tk(pp)[1] == '}':
+                if pos is None and pp <= bodye and tk(pp)[1] == '}':
                     # anchor is the block's tail expression (no `;`): the ghost text supplies the `;`
                     pos = tk(pp)[2]
                     edits.append((pos, pos, G(key, ';\n' + gtxt.rstrip() + '\n')))
